@@ -59,7 +59,7 @@ def gen(rng, tier, no, wide=False):
     off = rng.choice([0, 5, 1000])
     events = [[i, s[0] + off, s[1]] for i, s in zip(ids, spans)]
     rng.shuffle(events)      # row order of the frame
-    case = {"cfg": {"grid": g}, "ranks": {}, "events": events, "params": {"via_trace": rng.random() < 0.3, "tid": rng.choice([1, 1, 2, 3, 7, 100, 31234])}}
+    case = {"cfg": {"grid": g}, "ranks": {}, "events": events, "params": {"via_trace": rng.random() < 0.3, "tid": rng.choice([1, 1, 2, 3, 7, 100, 31234]), "two_ranks": rng.random() < 0.5}}
     return case
 
 
@@ -151,13 +151,26 @@ def observe(case):
                              "args": {"External id": i}})
             else:
                 rows.append({"ph": "M", "name": "filler", "pid": 1, "tid": 1, "ts": 0, "args": {}})
-        files = htaio.write_case({"ranks": {0: rows}})
+        # a second rank with another call tree: one CallGraph over both ranks, this family read back for rank 0 both
+        # from the frame columns and from the node objects (get_nodes of the rank's call stack)
+        other = [{"ph": "X", "cat": "cpu_op", "name": "aten::other", "pid": 1, "tid": tid, "ts": 0, "dur": 50},
+                 {"ph": "X", "cat": "cpu_op", "name": "aten::other", "pid": 1, "tid": tid, "ts": 5, "dur": 10},
+                 {"ph": "X", "cat": "cpu_op", "name": "aten::other", "pid": 1, "tid": tid, "ts": 6, "dur": 2},
+                 {"ph": "X", "cat": "cpu_op", "name": "aten::other", "pid": 1, "tid": tid, "ts": 20, "dur": 30}]
+        two = case["params"].get("two_ranks", False)
+        files = htaio.write_case({"ranks": {0: rows, 1: other} if two else {0: rows}})
         try:
             ta = htaio.load(files)
             from hta.common.trace_call_graph import CallGraph
-            cg = CallGraph(ta.t, ranks=[0])
+            cg = CallGraph(ta.t, ranks=[0, 1] if two else [0])
             d = cg.trace_data.get_trace(0)
             canon["callgraph"] = sorted([int(i), -1 if int(p) < 0 else int(p), int(dp)] for i, p, dp in zip(d["index"], d["parent"], d["depth"]))
+            nodes = []
+            for csg in cg.get_call_stacks(rank=0):
+                for i, n in csg.get_nodes().items():
+                    if i >= 0:
+                        nodes.append([int(i), -1 if n.parent < 0 else int(n.parent), int(n.depth)])
+            canon["callgraph_nodes"] = sorted(nodes)
         except Exception as e:  # noqa: BLE001
             canon["callgraph"] = "raises " + C.exc_name(e) + ": " + str(e)[:80]
         finally:
@@ -174,7 +187,7 @@ def model(drv, case, obs):
 def compare(obs, mod) -> List[str]:
     c = obs["canon"]
     out = []
-    for k in ("old", "new", "callgraph"):
+    for k in ("old", "new", "callgraph", "callgraph_nodes"):
         if k in c and c[k] != mod["entries"]:
             if isinstance(c[k], str):
                 out.append(f"{k} builder {c[k]}")
@@ -235,7 +248,7 @@ def _spec_violations(events, nodes, tag) -> List[str]:
 def oracle(case, obs) -> List[str]:
     c = obs["canon"]
     out = []
-    for k in ("old", "new", "callgraph"):
+    for k in ("old", "new", "callgraph", "callgraph_nodes"):
         if k in c:
             out += _spec_violations(case["events"], c[k], k)
     return out
